@@ -20,6 +20,9 @@ def run(seed, tier, cases, impl, model=None):
         picked = set(sample)
         odd = [l for l in pool if l not in picked and impl.get(l.split()[1]) != model.get(l.split()[1])]
         sample += odd[:60]
+        # ... and so is every object of an interleaved case (I line) whose trace, taken while the other objects of the case were alive,
+        # differs from the model's: alone in a fresh interpreter it is given the same requests
+        sample += [l for l in cases if l.startswith("S inter.") and impl.get(l.split()[1]) != model.get(l.split()[1])][:40]
     findings = []
     xcases, ximpl, xmodel = [], {}, {}
 
@@ -34,6 +37,8 @@ def run(seed, tier, cases, impl, model=None):
             ximpl[fid] = tr.get(cid)
             xmodel[fid] = impl.get(cid)      # "model" side of this component = the shared-process trace
             if tr.get(cid) != impl.get(cid):
-                findings.append(dict(pid="C15", cid=fid, line=line, err="history_dependence", d8=False,
-                                     what="trace in a fresh interpreter differs from the trace in the shared process"))
+                inter = next((l for l in cases if l.startswith("I " + cid.split("/")[0] + " ")), None) if cid.startswith("inter.") else None
+                findings.append(dict(pid="C15", cid=fid, line=inter or line, err="history_dependence", d8=False,
+                                     what=("object %s of this interleaved case: its trace differs from the trace of an equal object alone in a fresh interpreter" % cid.split("/")[1])
+                                     if inter else "trace in a fresh interpreter differs from the trace in the shared process"))
     return xcases, xmodel, ximpl, findings
